@@ -64,6 +64,8 @@ def generate(ck):
         {"kind": "profiles", "cls": "single", "nx": 30, "table": {"kind": "shipped", "name": "haynesville"}, "p_i": 9000.0, "p_f": 2000.0, "alpha_branch": False, "reused": False, "schedule": {"kind": "random-walk", "seed": 11, "n_steps": 3}, "sched_as": "list", "grid": {"family": "uniform", "nt": 150, "t_end": 2.0, "seed": 0}, "every": 7, "rescale": True, "decoy": True},
     ]
     descs.append({"kind": "foreign-scale"})
+    descs.append({"kind": "long-run", "n": 300001})
+    descs.append({"kind": "long-run", "n": 650000})
     for i in range(n):
         k = i % 8
         if k in (0, 1, 2):
@@ -97,6 +99,32 @@ def run_case(ck, desc):
     import bluebonnet.plotting as bp
 
     kind = desc["kind"]
+    if kind == "long-run":
+        # a run with several hundred thousand time stamps: the curves carry EVERY (time, recovery) pair.
+        # (The history is written onto the object directly - marching 300 000 steps would cost a minute
+        # and the plotting helpers only read time and field.)
+        import matplotlib.pyplot as plt
+
+        import bluebonnet.plotting as bp
+        from bluebonnet.flow import IdealReservoir
+
+        n_ = int(desc["n"])
+        r_ = IdealReservoir(3, 1000.0, 5000.0, None)
+        t_ = np.linspace(0.0, 1.0, n_) ** 2
+        r_.time = t_
+        r_.pseudopressure = np.stack([1 - np.exp(-3.0 * np.sqrt(t_ + 1e-12)) * f_ for f_ in (1.0, 0.6, 0.3)], axis=1)
+        rf_ = np.array(r_.recovery_factor(), copy=True)
+        for which, f_ in (("factor", bp.plot_recovery_factor), ("rate", bp.plot_recovery_rate)):
+            with warnings.catch_warnings(), np.errstate(all="ignore"):
+                warnings.simplefilter("ignore")
+                ax_ = f_(r_, change_ticks=bool(n_ % 2))
+                gl = _lines(ax_)
+                want_ = rf_ if which == "factor" else np.gradient(rf_, t_)
+            if len(gl) != 1 or len(gl[0][0]) != n_ or not np.array_equal(gl[0][0], t_) or not np.array_equal(gl[0][1], want_, equal_nan=True):
+                ck.violation("curve-carries-simulated-data", {"which": which, "stamps": n_, "vertices_drawn": int(len(gl[0][0])) if gl else 0, "last_x": float(gl[0][0][-1]) if gl and len(gl[0][0]) else None}, desc)
+            plt.close("all")
+        ck.count("long_runs_plotted")
+        return True, {"stamps": n_}
     if kind == "foreign-scale":
         # matplotlib's scale registry is process-wide: another package (or the user) has registered a scale
         # under the name "squareroot" BEFORE bluebonnet is imported. The library's figures still use the
